@@ -22,7 +22,7 @@ from . import backends, c13, common
 def r1(p, rep):
     rep.rule("C15.R1", "adapter outputs are checked before they are trusted", "T-MPT (dominators on the value pipeline)", floor=4)
     f = p.func("_ensure_output.inner", "adapter._util")
-    fs = [common.inlined_view(p, g, "einx._src.adapter") for g in common.with_helpers(p, f)]
+    fs = [common.inlined_view(p, g, "einx._src.adapter", keep_loops=True) for g in common.with_helpers(p, f)]
     found_tensor = False
     found_multi = False
     any_arity_raise = any_shape_raise = False
